@@ -610,3 +610,25 @@ Proof.
     injection H as <- <-. destruct (chain_seeded_chain _ _ _ _ _ _ _ _ _ Hw2 Hok E3) as [Hc Hw3].
     split; [exact Hw3|]. right. exists (Nat.max n 1), w', ex'. split; [lia|]. split; [exact Hc|reflexivity].
 Qed.
+
+(** * The statements as pinned *)
+Lemma seeded_in_outcomes_l wc cd cs w ex st k st' : wf st -> wtabs_ok wc = true ->
+  edit_word_seeded wc cd cs w ex st = SOk k st' ->
+  wf st' /\ valid_ed (erase wc) w ex k /\
+  exists l, outcomes (erase wc) cd cs w ex = Some l /\ In (apply_word k w, apply_excl k ex) l.
+Proof.
+  intros Hw Hok H. destruct (seeded_in_choices_l _ _ _ _ _ _ _ _ Hw Hok H) as (Hw' & l & Hl & Hin).
+  split; [exact Hw'|]. split; [eapply choices_valid; eassumption|].
+  destruct (outcomes_of_choices _ _ _ _ _ _ _ Hl Hin) as (lo & Hlo & Hino). exists lo. split; [exact Hlo|exact Hino].
+Qed.
+
+Lemma chain_seeded_props_l wc pf n w ex st w' ex' st' : wf st -> wtabs_ok wc = true ->
+  chain_seeded wc pf n w ex st = Some (w', ex', st') ->
+  wf st' /\ chain (erase wc) n (w, ex) (w', ex') /\
+  (in_range w ex -> in_range w' ex') /\ subseq (unprot w' ex') (unprot w ex).
+Proof.
+  intros Hw Hok H. destruct (chain_seeded_chain _ _ _ _ _ _ _ _ _ Hw Hok H) as [Hc Hw'].
+  split; [exact Hw'|]. split; [exact Hc|]. split.
+  - apply (chain_inv_l _ _ _ _ Hc).
+  - apply (chain_fresh_l _ _ _ _ Hc).
+Qed.
